@@ -127,6 +127,15 @@ Section SpellText.
   Proof. intros root lv. cbn [FiltChainAddr.nav1f]. apply navp_ext. intros v. unfold QueryAddr.dnf_test. cbn [existsb forallb QueryAddr.bq_test]. destruct o; reflexivity. Qed.
   Lemma typed_literal_left_spellings i ne l : same_step (FQ [[BL i ne l]]) (FQ [[BLL l ne i]]).
   Proof. intros root lv. reflexivity. Qed.
+  (* a `$` path on the left: `$.x<@.a` means `@.a>$.x`, `$.x==@.a` means `@.a==$.x` *)
+  Lemma root_left_spellings i o j : match o with OLt | OLe | OGt | OGe => true | _ => false end = true ->
+    same_step (FQ [[BCR i o j]]) (FQ [[BRL j (mirror_op o) i]]).
+  Proof.
+    intros Ho root lv. cbn [FiltChainAddr.nav1f]. apply navp_ext. intros v. unfold QueryAddr.dnf_test. cbn [existsb forallb QueryAddr.bq_test].
+    destruct o; try discriminate Ho; reflexivity.
+  Qed.
+  Lemma root_left_eq_spellings i ne j : same_step (FQ [[BPQ i ne j]]) (FQ [[BRL j (if ne then ONe else OEq) i]]).
+  Proof. intros root lv. cbn [FiltChainAddr.nav1f]. apply navp_ext. intros v. unfold QueryAddr.dnf_test. cbn [existsb forallb QueryAddr.bq_test]. destruct ne; reflexivity. Qed.
   (* parentheses around a sub-query change nothing *)
   Lemma parenthesised_query_spellings t : same_step (FT t) (FT (TP t)).
   Proof. intros root lv. reflexivity. Qed.
